@@ -23,7 +23,7 @@ META = {
         'keys that only exist from 1.1 (or only before) are read under exactly that version guard; R4 the Metadata keys, '
         '_DC_ATTRS and the keys _meta_dict writes are the same set; R5 everything printed to the output is a constant, the '
         'ElementTree serialisation of an element, or passed through quoteattr; R6 dump() prints the very header constants '
-        '_read_header compares against. R8 no truthiness test on a numeric model value in writer / exporter (0 is a value). R2 also: every lemma (external or not) and every form reaches _validate_forms, where typed attributes are converted. R10 no truth test of an ElementTree element in the writer (its truth is \'has children\').'),
+        '_read_header compares against. R8 no truthiness test on a numeric model value in writer / exporter (0 is a value). R2 also: every lemma (external or not) and every form reaches _validate_forms, where typed attributes are converted. R10 no truth test of an ElementTree element in the writer (its truth is \'has children\'). R11 an attrib dict handed to an element constructor is not stored into afterwards (ET.Element copies it).'),
     'decides': ['version table agreement', 'model <-> reader element sets', 'model <-> writer key coverage', 'metadata key tables',
                 'escaping discipline', 'shared header constants'],
     'not_decided': ['whitespace normalisation / xml:space="preserve"', 'byte-level fixed point', 'value conversions themselves'],
